@@ -60,6 +60,7 @@ def run(exe, mode, call_lines, sdir, tag, env=None, timeout=3600, extra_args=Non
     with open(cf, "w") as f:
         f.write("\n".join(call_lines) + "\n")
     e = dict(os.environ)
+    e["VERIF_TMP"] = sdir       # files the interpreter writes (private-array scenario) stay in the run's scratch directory
     e.setdefault("ASAN_OPTIONS", "detect_leaks=1:leak_check_at_exit=0:halt_on_error=1:exitcode=99:allocator_may_return_null=1:handle_abort=1")
     e.setdefault("UBSAN_OPTIONS", "halt_on_error=1:print_stacktrace=1:exitcode=98")
     e.setdefault("TSAN_OPTIONS", "halt_on_error=1:exitcode=97:second_deadlock_stack=1")
@@ -89,8 +90,8 @@ def parse(out_line):
     """'R\\t<res>\\tE\\t<err>[\\tN\\t..\\tP\\t..\\tS\\t..\\tH\\t..]' -> dict"""
     t = out_line.split("\t")
     d = dict(raw=out_line, result=None, err=None)
-    if t[0] != "R":
-        d["bad"] = out_line
+    if t[0] != "R" or len(t) < 4 or len(t) not in (4, 6, 12):
+        d["bad"] = out_line if t[0] != "R" else "truncated:" + out_line[:80]      # a line cut short by a dying interpreter
         return d
     d["result"] = t[1]
     e = t[3]
